@@ -178,6 +178,13 @@ def header_lines(app):
         probes.append(('no-content-type', 'PUT', concrete(route, 'PUT'), 'admin+service', b'{}', False))
         probes.append(('wrong-media-type', 'POST', concrete(route, 'POST'), 'admin+service', b'{}', 'text/plain'))
         probes.append(('success-or-handler-error', 'GET', concrete(route), 'admin+service', None, True))
+    # successful reads of empty collections (a provider and a consumer with nothing, filters matching nothing)
+    for path in ('/allocations/' + U('c7'), '/resource_providers/' + U('p4') + '/allocations',
+                 '/resource_providers/' + U('p4') + '/inventories', '/resource_providers/' + U('p4') + '/traits',
+                 '/resource_providers/' + U('p4') + '/aggregates', '/resource_providers/' + U('p4') + '/usages',
+                 '/resource_providers?name=nosuchname', '/usages?project_id=nosuchproject',
+                 '/traits?name=startswith:CUSTOM_NOSUCH', '/allocation_candidates?resources=VCPU:100000'):
+        probes.append(('empty-result', 'GET', path, 'admin+service', None, True))
     probes.append(('unknown-route', 'GET', '/nonexistent', 'admin+service', None, True))
     probes.append(('conflict', 'POST', '/resource_providers', 'admin+service',
                    json.dumps({'name': 'p1', 'uuid': U('p9')}).encode(), True))
@@ -191,7 +198,9 @@ def header_lines(app):
             st, rh, rb = app.call(method, path, h, body)
             lines.append({'kind': 'hdr', 'probe': kind, 'method': method, 'route': path, 'vkind': vkind, 'v': v,
                           'status': st, 'hver': _ver_of(rh),
-                          'vary': 'openstack-api-version' in rh.get('vary', '').lower()})
+                          'vary': 'openstack-api-version' in rh.get('vary', '').lower(),
+                          'cache': 'last-modified' in rh and rh.get('cache-control') == 'no-cache',
+                          'anycache': 'last-modified' in rh or 'cache-control' in rh})
     app.restore('surf')
     return lines
 
